@@ -39,6 +39,9 @@ pub enum GKind {
     NanBeyond,
     /// standard normal with a cliff: -inf for x_0 > c
     Cliff,
+    /// -|x| (Euclidean norm through sqrt of the sum of squares): finite everywhere, but the gradient at
+    /// the origin is undefined (NaN, also from autodiff: 0 * inf)
+    Kink,
 }
 
 #[derive(Clone, Debug)]
@@ -194,6 +197,7 @@ impl GTarget {
                     -0.5 * x.iter().map(|v| v * v).sum::<f64>()
                 }
             }
+            GKind::Kink => -x.iter().map(|v| v * v).sum::<f64>().sqrt(),
         }
     }
 
@@ -233,6 +237,10 @@ impl GTarget {
             GKind::HalfLineLog => x.iter().map(|v| 1.0 / v - 1.0).collect(),
             GKind::Box | GKind::NanBeyond | GKind::Cliff => x.iter().map(|v| -v).collect(),
             GKind::SqrtEdge => x.iter().map(|v| -v - 0.5 / (self.c - v).sqrt()).collect(),
+            GKind::Kink => {
+                let r = x.iter().map(|v| v * v).sum::<f64>().sqrt();
+                x.iter().map(|v| -v / r).collect()
+            }
         }
     }
 
@@ -315,6 +323,7 @@ impl GTarget {
                 let over = x.slice([0..n, 0..1]).squeeze::<1>(1).greater_elem(self.c);
                 lp.mask_fill(over, f64::NEG_INFINITY)
             }
+            GKind::Kink => x.powi_scalar(2).sum_dim(1).squeeze::<1>(1).sqrt().neg(),
         }
     }
 }
